@@ -56,6 +56,14 @@ func (e *ctxEnv) finish(c *ctxRec, desc map[string]interface{}, kind string) {
 	for _, f := range checkPluginTrace(pt, c.nStartCB, c.nEndCB) {
 		e.st.Fail("plugin-callback-order-violated", desc, f, "start callbacks before resolve/load, identities loaded once, end callbacks after write, in order, once")
 	}
+	if i, msg := watchHistoryOK(h); i >= 0 {
+		d2 := map[string]interface{}{}
+		for k, v := range desc {
+			d2[k] = v
+		}
+		d2["rejected_event_index"] = i
+		e.st.Fail("watcher-built-without-a-change", d2, msg, "the watcher starts a build only for a change it has not built yet (WatchServe.wtrace_ok)")
+	}
 	if len(h) <= 400 {
 		e.histCase = append(e.histCase, coqHist(h))
 	}
